@@ -348,6 +348,46 @@ func EnumerateEdits(src []byte, visit func(Edit)) (int, error) {
 						c[pi] = np
 						emit("nsdecl-hoist", true, fmt.Sprintf("%s/@%s moved to the parent element", paths[i], a.Name), c)
 					}
+					// default-namespace declaration moved to the parent when that
+					// changes no name: the parent's own name is prefixed, it declares
+					// no default namespace itself and no other element below it is
+					// unprefixed
+					for k, a := range t.Attrs {
+						if a.Name != "xmlns" {
+							continue
+						}
+						pi := parentStart[len(parentStart)-1]
+						par := toks[pi]
+						if !strings.Contains(par.Name, ":") {
+							continue
+						}
+						clash := false
+						for _, pa := range par.Attrs {
+							if pa.Name == "xmlns" {
+								clash = true
+							}
+						}
+						ends := Match(toks)
+						for j := pi + 1; j < ends[pi] && !clash; j++ {
+							if j >= i && j <= ends[i] {
+								continue
+							}
+							if toks[j].Kind == Start && !strings.Contains(toks[j].Name, ":") {
+								clash = true
+							}
+						}
+						if clash {
+							continue
+						}
+						c := cloneToks(toks)
+						nt := t
+						nt.Attrs = append(cloneAttrs(t.Attrs[:k]), t.Attrs[k+1:]...)
+						c[i] = nt
+						np := par
+						np.Attrs = append(cloneAttrs(np.Attrs), Attr{Pre: " ", Name: a.Name, Quote: a.Quote, Raw: a.Raw})
+						c[pi] = np
+						emit("nsdecl-hoist", true, fmt.Sprintf("%s/@xmlns (default namespace) moved to the parent element %s", paths[i], par.Name), c)
+					}
 				}
 				if !t.SelfClose {
 					stack = append(stack, own)
